@@ -498,7 +498,7 @@ def unit():
     u = VUnit('ntt_value', 'ntt_internal computes the DFT: outp[i] == sum_m inp[m] (s w^i)^m for every size')
     u.oracle = {'inject': 'src/ntt.rs', 'file': 'ntt_oracle.rs', 'test': 'verif_oracle_ntt::oracle_ntt_contracts'}
     u.raw('global size_of usize == 8;     // [assumption] 64-bit target\n' + FE_PRELUDE, 'abstract-field')
-    u.raw('pub enum NttError { OutputTooSmall, SizeTooLarge, SizeInvalid }\n', 'errors')
+    u.raw('#[derive(Debug)]\npub enum NttError { OutputTooSmall, SizeTooLarge, SizeInvalid }\n', 'errors')
     u.raw(MATH, 'math')
     u.raw(LAYER, 'layer')
     u.raw(ROOT_SHIMS.replace('%(MR)d', str(mr)), 'shims')
@@ -516,6 +516,7 @@ requires
     size == 1 ==> inp@.len() >= 1,
 ensures
     final(outp)@.len() == old(outp)@.len(),
+    r is Ok <==> (size <= old(outp)@.len() && (exists|d: nat| d <= MAX_ROOTS && (set_s ==> d < MAX_ROOTS) && size as int == pow2(d))),
     // THE TRANSFORM: position i holds the input polynomial (zero-padded coefficients) at the point s * w^i,
     // w = root(d) the principal size-th root of unity, s = root(d+1) for the shifted transform and 1 otherwise
     r is Ok ==> forall|d: nat| size as int == pow2(d) ==> forall|i: int| 0 <= i < size ==> cong(fe_v(#[trigger] final(outp)@[i]), esum(inp@, 0, 1, tw(set_s, d as int, i), size as int)),
@@ -571,6 +572,7 @@ invariant
     lemma_level0(outp@, inp@, d as nat, set_s);
 '''), ('Ok(())', '''
     lemma_level_d(outp@, inp@, d as nat, set_s);
+    assert(d as nat <= MAX_ROOTS && (set_s ==> d < MAX_ROOTS) && size as int == pow2(d as nat));
     assert forall|dd: nat| size as int == pow2(dd) implies dd == d as nat by {
         if dd < d as nat { lemma_pow2_strictly_increases(dd, d as nat); }
         if dd > d as nat { lemma_pow2_strictly_increases(d as nat, dd); }
@@ -601,4 +603,126 @@ invariant
     lemma_layer_roll(outp@, prev, w0, r, pow2(l as nat) as int, y as int, chunk as int, y - 1);
     lemma_layer_to_level(outp@, prev, inp@, d as nat, l as nat, set_s, w0, r);
 '''})
+    # ---- the public wrappers and the inverse transform, over the contract of ntt_internal proved above ---------------------------
+    u.raw('''
+// contract proved in unit poly_kernels (same run)
+#[verifier::external_body]
+fn ntt_inv_finish(outp: &mut Vec<Fe>, size: usize, size_inv: Fe)
+    requires 2 <= size <= old(outp)@.len(), size % 2 == 0,
+    ensures final(outp)@.len() == old(outp)@.len(),
+            final(outp)@[0] == fe_mk(fe_v(old(outp)@[0]) * fe_v(size_inv)),
+            forall|i: int| 1 <= i < size ==> #[trigger] final(outp)@[i] == fe_mk(fe_v(old(outp)@[size - i]) * fe_v(size_inv)),
+            forall|i: int| size <= i < old(outp)@.len() ==> #[trigger] final(outp)@[i] == old(outp)@[i],
+{ unimplemented!() }
+// F::from(F::Integer::try_from(size).unwrap()).inv(): the inverse of the transform size in the field  (C09: from, inv)
+pub uninterp spec fn size_inv_spec(size: usize) -> Fe;
+#[verifier::external_body]
+fn fe_size_inv(size: usize) -> (r: Fe) requires 1 <= size <= 0x10_0000 ensures r == size_inv_spec(size), cong(fe_v(r) * (size as int), 1) { unimplemented!() }
+// the point the k-th output of the inverse transform is evaluated at: w^((size - k) mod size) == w^(-k)
+pub open spec fn inv_idx(size: int, k: int) -> int { if k == 0 { 0 } else { size - k } }
+''', 'inverse-shims')
+    WR = [(r'<F: NttFriendlyFieldElement>', '', 1), (r'outp: &mut \[F\]', 'outp: &mut Vec<Fe>', 1), (r'inp: &\[F\]', 'inp: &Vec<Fe>', 1)]
+    for fn_, ss in (('ntt', 'false'), ('ntt_set_s', 'true')):
+        u.item('src/ntt.rs', ['fn ' + fn_], ret='r', rewrites=WR, sig='''
+requires
+    size >= 1,
+    size == 1 ==> inp@.len() >= 1,
+ensures
+    final(outp)@.len() == old(outp)@.len(),
+    r is Ok <==> (size <= old(outp)@.len() && (exists|d: nat| d <= MAX_ROOTS && (%s ==> d < MAX_ROOTS) && size as int == pow2(d))),
+    // the input polynomial evaluated at %s, i = 0..size-1
+    r is Ok ==> forall|d: nat| size as int == pow2(d) ==> forall|i: int| 0 <= i < size ==> cong(fe_v(#[trigger] final(outp)@[i]), esum(inp@, 0, 1, tw(%s, d as int, i), size as int)),
+    forall|k: int| size <= k < old(outp)@.len() ==> #[trigger] final(outp)@[k] == old(outp)@[k],
+''' % (ss, 'root(d+1) * root(d)^i' if ss == 'true' else 'root(d)^i', ss))
+    u.item('src/ntt.rs', ['fn ntt_inv'], ret='r',
+           rewrites=WR + [(r'F::from\(F::Integer::try_from\(size\)\.unwrap\(\)\)\.inv\(\)', 'fe_size_inv(size)', 1)],
+           sig='''
+requires
+    2 <= size <= 0x10_0000,
+    size <= old(outp)@.len(),
+ensures
+    final(outp)@.len() == old(outp)@.len(),
+    // the textbook inverse transform: out[k] == size^-1 * sum_i inp[i] * (w^-k)^i   (w^-k == w^(size-k))
+    r is Ok ==> forall|d: nat| size as int == pow2(d) ==> forall|k: int| 0 <= k < size ==>
+        cong(fe_v(#[trigger] final(outp)@[k]), esum(inp@, 0, 1, tw(false, d as int, inv_idx(size as int, k)), size as int) * fe_v(size_inv_spec(size))),
+    cong(fe_v(size_inv_spec(size)) * (size as int), 1),
+    forall|k: int| size <= k < old(outp)@.len() ==> #[trigger] final(outp)@[k] == old(outp)@[k],
+''', ghost_after=[('ntt(outp, inp, size)?', 'let ghost t = outp@;')],
+           before=[('ntt_inv_finish(outp, size, size_inv)', '''
+    // a power of two >= 2 is even
+    let d0 = choose|d0: nat| d0 <= MAX_ROOTS && (false ==> d0 < MAX_ROOTS) && size as int == pow2(d0);
+    lemma2_to64();
+    if d0 >= 1 { lemma_pow2_unfold(d0); }
+'''), ('Ok(())', '''
+    broadcast use axiom_fe_mk;
+    assert forall|dd: nat| size as int == pow2(dd) implies (forall|k: int| 0 <= k < size ==> cong(fe_v(#[trigger] outp@[k]), esum(inp@, 0, 1, tw(false, dd as int, inv_idx(size as int, k)), size as int) * fe_v(size_inv))) by {
+        assert forall|k: int| 0 <= k < size implies cong(fe_v(#[trigger] outp@[k]), esum(inp@, 0, 1, tw(false, dd as int, inv_idx(size as int, k)), size as int) * fe_v(size_inv)) by {
+            let j = inv_idx(size as int, k);
+            let e = esum(inp@, 0, 1, tw(false, dd as int, j), size as int);
+            assert(cong(fe_v(t[j]), e));
+            assert(outp@[k] == fe_mk(fe_v(t[j]) * fe_v(size_inv)));
+            lemma_cong_mod(fe_v(t[j]) * fe_v(size_inv));
+            lemma_cong_refl(fe_v(size_inv));
+            lemma_cong_mul(fe_v(t[j]), e, fe_v(size_inv), fe_v(size_inv));
+            lemma_cong_trans(fe_v(outp@[k]), fe_v(t[j]) * fe_v(size_inv), e * fe_v(size_inv));
+        }
+    }
+''', -1)])
+    # ---- polynomial::poly_interpret_eval: Horner o (index reversal + scaling) o forward transform ------------------------------------
+    u.raw('''
+// textbook value of the polynomial with coefficient sequence s at x
+pub open spec fn psum(s: Seq<Fe>, x: int, n: int) -> int decreases n
+{ if n <= 0 { 0 } else { psum(s, x, n - 1) + fe_v(s[n - 1]) * pow(x, (n - 1) as nat) } }
+// contract proved in unit poly_kernels (same run)
+#[verifier::external_body]
+fn poly_eval_monomial(poly: &Vec<Fe>, eval_at: Fe) -> (r: Fe) ensures cong(fe_v(r), psum(poly@, fe_v(eval_at), poly@.len() as int)) { unimplemented!() }
+// &v[..n]  (E3c: a slice prefix is verified as a copy with the same elements)
+#[verifier::external_body]
+fn vec_prefix(v: &Vec<Fe>, n: usize) -> (r: Vec<Fe>) requires n <= v@.len() ensures r@ == v@.take(n as int) { unimplemented!() }
+// c is the inverse transform of `points`: c[k] == size^-1 * sum_i points[i] * (w^-k)^i
+pub open spec fn is_idft(c: Seq<Fe>, points: Seq<Fe>, d: nat) -> bool {
+    &&& c.len() == pow2(d)
+    &&& forall|k: int| 0 <= k < pow2(d) ==> cong(fe_v(#[trigger] c[k]), esum(points, 0, 1, tw(false, d as int, inv_idx(pow2(d) as int, k)), pow2(d) as int) * fe_v(size_inv_spec(pow2(d) as usize)))
+}
+''', 'interpret-eval-shims')
+    u.item('src/polynomial.rs', ['fn poly_interpret_eval'], ret='r',
+           rewrites=[(r'<F: NttFriendlyFieldElement>', '', 1), (r'points: &\[F\]', 'points: &Vec<Fe>', 1), (r'eval_at: F,', 'eval_at: Fe,', 1), (r'tmp_coeffs: &mut \[F\]', 'tmp_coeffs: &mut Vec<Fe>', 1),
+                     (r'\) -> F \{', ') -> Fe {', 1), (r'use crate::ntt::\{ntt, ntt_inv_finish\};', '', 1),
+                     (r'F::from\(F::Integer::try_from\(points\.len\(\)\)\.unwrap\(\)\)\.inv\(\)', 'fe_size_inv(points.len())', 1),
+                     (r'poly_eval_monomial\(&tmp_coeffs\[\.\.points\.len\(\)\], eval_at\)', 'poly_eval_monomial(&vec_prefix(tmp_coeffs, points.len()), eval_at)', 1)],
+           sig='''
+requires
+    // derived from the call sites (Prio2 verification, FLP query): a power-of-two number of points within the root table, scratch space for them
+    exists|d: nat| 1 <= d <= MAX_ROOTS && points@.len() == pow2(d),
+    points@.len() <= old(tmp_coeffs)@.len(),
+ensures
+    // the value at eval_at of the polynomial whose coefficients are the inverse transform of `points`
+    forall|d: nat| points@.len() == pow2(d) ==> exists|c: Seq<Fe>| #[trigger] is_idft(c, points@, d) && cong(fe_v(r), psum(c, fe_v(eval_at), c.len() as int)),
+''', before=[('let size_inv', '''
+    let dx = choose|dx: nat| 1 <= dx <= MAX_ROOTS && points@.len() == pow2(dx);
+    lemma2_to64(); lemma_pow2_strictly_increases_or_eq(dx, 20); lemma_pow2_unfold(dx); lemma_pow2_pos((dx - 1) as nat);
+'''), ('ntt(tmp_coeffs, points, points.len()).unwrap()', '''
+    lemma2_to64(); lemma_pow2_strictly_increases_or_eq(d0, 20); lemma_pow2_unfold(d0); lemma_pow2_pos((d0 - 1) as nat);
+    assert(d0 <= MAX_ROOTS && (false ==> d0 < MAX_ROOTS) && points@.len() as int == pow2(d0));
+'''), ('poly_eval_monomial(', '''
+    broadcast use axiom_fe_mk;
+    let n = points@.len() as int;
+    let c = tmp_coeffs@.take(n);
+    assert forall|dd: nat| points@.len() == pow2(dd) implies dd == d0 by {
+        if dd < d0 { lemma_pow2_strictly_increases(dd, d0); }
+        if dd > d0 { lemma_pow2_strictly_increases(d0, dd); }
+    }
+    assert forall|k: int| 0 <= k < n implies cong(fe_v(#[trigger] c[k]), esum(points@, 0, 1, tw(false, d0 as int, inv_idx(n, k)), n) * fe_v(size_inv)) by {
+        let j = inv_idx(n, k);
+        let e = esum(points@, 0, 1, tw(false, d0 as int, j), n);
+        assert(cong(fe_v(t[j]), e));
+        assert(c[k] == fe_mk(fe_v(t[j]) * fe_v(size_inv)));
+        lemma_cong_mod(fe_v(t[j]) * fe_v(size_inv));
+        lemma_cong_refl(fe_v(size_inv));
+        lemma_cong_mul(fe_v(t[j]), e, fe_v(size_inv), fe_v(size_inv));
+        lemma_cong_trans(fe_v(c[k]), fe_v(t[j]) * fe_v(size_inv), e * fe_v(size_inv));
+    }
+    assert(is_idft(c, points@, d0));
+''')], ghost_after=[('ntt(tmp_coeffs, points, points.len()).unwrap()', 'let ghost t = tmp_coeffs@;')],
+           ghost_before=[('let size_inv', 'let ghost d0 = choose|d0: nat| 1 <= d0 <= MAX_ROOTS && points@.len() == pow2(d0);')])
     return u
